@@ -175,7 +175,7 @@ func DriveC15(t *tr.W, thorough bool) {
 		}
 		// what the scripted peers saw
 		for i, p := range s.Peers {
-			t.Op(fmt.Sprintf("saw %d", i), fmt.Sprintf("invtx %d", min1(p.GotInvTx)))
+			t.Op(fmt.Sprintf("saw %d", i), fmt.Sprintf("invtx %d", min1(atomic.LoadInt32(&p.GotInvTx))))
 		}
 		t.Hit("c15." + name)
 		stopLine(t, s, name)
